@@ -490,6 +490,8 @@ def _eval_level(prog, provided, *, path, fail, responses, top_levels, stop) -> R
                     continue
                 if k == "fn":
                     res = rt.term(fid, args, len(ns.get("outs", [])), bool(ns.get("gen")))
+                    if ns.get("none_out") and len(ns.get("outs", [])) == 1 and not ns.get("gen"):
+                        res = None  # a node whose (single) result is the value None
                     onames = ns.get("outs", [])
                     fm = forward_map(list(onames) + list(ns.get("emit", [])), ns.get("rename_out"))
                     if len(onames) == 1:
